@@ -53,6 +53,13 @@ def wrappers(kind, base):
         out.append((f'ElementVector({pick[1]})*{pick[0]}', (lambda a=cs[1], b=cs[0]: E.ElementVector(a()) * b())))
     if len(cs) >= 3:
         out.append((f'{pick[2]}*{pick[0]}', (lambda a=cs[2], b=cs[0]: a() * b())))
+    # 3-D composites whose components differ in their edge / facet DOF pattern (the order of the groups matters)
+    mixed = {'tet': [('ElementTetCCR', 'ElementTetP2'), ('ElementTetP2', 'ElementTetCR'), ('ElementTetN1', 'ElementTetCR'),
+                     ('ElementTetRT1', 'ElementTetP2')],
+             'hex': [('ElementHex2', 'ElementHexS2'), ('ElementHexS2', 'ElementHexRT1')]}.get(kind, [])
+    for a, b in mixed:
+        if a in d and b in d:
+            out.append((f'{a}*{b}', (lambda a=d[a], b=d[b]: a() * b())))
     return out
 
 
